@@ -373,10 +373,13 @@ fn kind_of(e: &(dyn std::error::Error + 'static)) -> String
 fn observe(p: &Project, dir: &PathBuf, fl: &Flat, names: &[String]) -> Observed {observe_roots(p, dir, fl, names, &[0])}
 
 /// `roots`: the files handed to `Context::assemble` at top level, one after the other, on ONE Context
-fn observe_roots(p: &Project, dir: &PathBuf, fl: &Flat, names: &[String], roots: &[usize]) -> Observed
+fn observe_roots(p: &Project, dir: &PathBuf, fl: &Flat, names: &[String], roots: &[usize]) -> Observed {observe_texts(p, dir, fl, names, roots, None)}
+
+/// `texts`: the source of each file when it is not the canonical rendering (list forms)
+fn observe_texts(p: &Project, dir: &PathBuf, fl: &Flat, names: &[String], roots: &[usize], texts: Option<&[String]>) -> Observed
 {
 	std::fs::create_dir_all(dir).unwrap();
-	for i in 0..p.files.len() {std::fs::write(dir.join(format!("f{i}.asm")), p.text(i)).unwrap();}
+	for i in 0..p.files.len() {std::fs::write(dir.join(format!("f{i}.asm")), match texts {Some(t) => t[i].clone(), None => p.text(i)}).unwrap();}
 	let res = guarded(||
 	{
 		let directives = DirectiveList::generate();
@@ -1736,6 +1739,170 @@ fn multi_name(cx: &mut Cx)
 	cx.report.hit_n("mixed-name projects", n as u64);
 }
 
+// ------------------------------------------------------------------------------------------------
+// LIST forms: `.global a, b;` `.import a, b, c;` `.export a, b;`. Today a directive with two names is an arity diagnostic. Should
+// the crate accept lists, the statement must behave exactly as the one-name directives in sequence (the project as it is held
+// here is that expansion; the merged text keeps its line numbers by leaving the absorbed lines empty). Input: `list <project> <merges>`,
+// merges = `file.index.count` joined by `,`.
+
+fn merged_texts(p: &Project, merges: &[(usize, usize, usize)]) -> Vec<String>
+{
+	(0..p.files.len()).map(|file|
+	{
+		let mut o = String::new();
+		if file == 0 {o.push_str(&format!(".addr 0x{BASE:08X};\n"));}
+		let single = Project{files: vec![Vec::new()]};
+		let _ = single;
+		let mut i = 0;
+		while i < p.files[file].len()
+		{
+			if let Some((_, _, count)) = merges.iter().find(|(f, at, _)| *f == file && *at == i)
+			{
+				let names: Vec<&String> = p.files[file][i..i + count].iter().map(|s| match s {St::Global(n) | St::Import(n) | St::Export(n) => n, _ => unreachable!("only scope directives are merged")}).collect();
+				let dir = match &p.files[file][i] {St::Global(..) => "global", St::Import(..) => "import", _ => "export"};
+				o.push_str(&format!(".{dir} {};\n", names.iter().map(|n| n.as_str()).collect::<Vec<_>>().join(", ")));
+				for _ in 1..*count {o.push('\n');}
+				i += count;
+			}
+			else
+			{
+				let one = Project{files: vec![vec![p.files[file][i].clone()]]};
+				// a non-root rendering of the single statement (no `.addr` line)
+				let t = Project{files: vec![Vec::new(), one.files[0].clone()]}.text(1);
+				o.push_str(&t);
+				i += 1;
+			}
+		}
+		o
+	}).collect()
+}
+
+fn check_list(cx: &mut Cx, p: &Project, merges: &[(usize, usize, usize)], serial: u64)
+{
+	let input = format!("list {} {}", p.encode(), merges.iter().map(|(f, i, c)| format!("{f}.{i}.{c}")).collect::<Vec<_>>().join(","));
+	let fl = flatten(p);
+	let names = names_of(p);
+	let texts = merged_texts(p, merges);
+	let dir = cx.work.join(format!("l{}", serial % 16));
+	let obs = observe_texts(p, &dir, &fl, &names, &[0], Some(&texts));
+	// the tag (line) of a statement inside a merged run is the line of the run
+	let map_tag = |t: u64| -> u64
+	{
+		for (f, at, count) in merges
+		{
+			let first = tag_of(*f, *at);
+			if file_of_tag(t) == *f && t > first && t < first + *count as u64 {return first;}
+		}
+		t
+	};
+	cx.report.case(Some(&canon_obs(&obs)));
+	if let Some(msg) = &obs.panic {cx.report.oracle_fail(input, format!("the real Context panicked: {msg}")); return;}
+	let merged_tags: Vec<u64> = merges.iter().map(|(f, at, _)| tag_of(*f, *at)).collect();
+	if let Some((t, k)) = obs.diags.iter().find(|(_, k)| k.contains("dir.toomany."))
+	{
+		cx.report.hit("list form: arity diagnostic");
+		if !merged_tags.contains(t) || obs.final_ok {cx.report.oracle_fail(input, format!("arity diagnostic {k} at f{}.asm:{}, finalize ok {}: not at a list statement {merged_tags:?}", file_of_tag(*t), line_of_tag(*t), obs.final_ok));}
+		return;
+	}
+	// accepted: exactly the one-name directives in sequence
+	cx.report.hit("list form: accepted");
+	let expanded = observe(p, &cx.work.join(format!("x{}", serial % 16)), &fl, &names);
+	let exp_diags: Vec<(u64, String)> = expanded.diags.iter().map(|(t, k)| (map_tag(*t), k.clone())).collect();
+	if obs.values != expanded.values || obs.diags != exp_diags || obs.final_ok != expanded.final_ok || obs.globals != expanded.globals
+	{
+		cx.report.oracle_fail(input.clone(), format!("the list form behaves differently from its one-name directives in sequence: list form {} | in sequence {}", canon_obs(&obs), canon_obs(&Observed{diags: exp_diags.clone(), ..expanded.clone()})));
+	}
+	match reference(p, &fl)
+	{
+		Verdict::Clean(res) =>
+		{
+			if !obs.diags.is_empty() || !obs.final_ok {cx.report.oracle_fail(input.clone(), format!("the scope rules accept the expanded project, the list form reports {:?}", obs.diags));}
+			for (tag, (v, _)) in &res
+			{
+				if obs.values.get(tag).map(|x| *x as i64) != Some(*v) {cx.report.oracle_fail(input.clone(), format!("the use at f{}.asm:{} must hold {v}, the image holds {:?}", file_of_tag(*tag), line_of_tag(*tag), obs.values.get(tag)));}
+			}
+		},
+		Verdict::Violation(tag, what) =>
+		{
+			let t = map_tag(tag);
+			if obs.final_ok || !obs.diags.iter().any(|(d, _)| *d == t)
+			{
+				cx.report.oracle_fail(input.clone(), format!("{what} (name {} of the list at f{}.asm:{}) must be diagnosed; diagnostics: {:?}, finalize ok: {}", tag - t + 1, file_of_tag(t), line_of_tag(t), obs.diags, obs.final_ok));
+			}
+		},
+		Verdict::Unspecified(..) => (),
+	}
+}
+
+fn list_candidates(p: &Project) -> Vec<(usize, usize, usize)>
+{
+	let mut out = Vec::new();
+	for (f, sts) in p.files.iter().enumerate()
+	{
+		let mut i = 0;
+		while i < sts.len()
+		{
+			let kind = |s: &St| match s {St::Global(..) => 1, St::Import(..) => 2, St::Export(..) => 3, _ => 0};
+			let k = kind(&sts[i]);
+			let mut j = i + 1;
+			while k != 0 && j < sts.len() && kind(&sts[j]) == k && j - i < 3 {j += 1;}
+			if k != 0 && j - i >= 2 {out.push((f, i, j - i));}
+			i = j.max(i + 1);
+		}
+	}
+	out
+}
+
+fn list_forms(cx: &mut Cx)
+{
+	let fixed = [
+		// the includer has `late` declared only; the child imports it together with a name the includer lacks
+		("g:late,i:1,c:late:5/m:late,m:nosuch", "1.0.2"),
+		("g:late,i:1,c:late:5/m:nosuch,m:late", "1.0.2"),
+		("g:late,c:here:7,g:here,i:1,c:late:5/m:late,m:here,u:here,u:late", "1.0.2"),
+		("c:a:1,c:b:2,g:a,g:b,i:1/m:a,m:b,u:a,u:b", "0.2.2,1.0.2"),
+		("c:a:1,c:b:2,e:a,e:b,u:a", "0.2.2"),
+		("i:1,u:a,u:b/c:a:1,c:b:2,c:c:3,e:a,e:b,e:c", "1.3.3"),
+		("g:a,g:b,g:a,c:a:1,c:b:2", "0.0.3"),
+	];
+	let mut serial = 0u64;
+	for (proj, m) in fixed
+	{
+		let p = Project::decode(proj).expect("fixed list project");
+		let merges: Vec<(usize, usize, usize)> = m.split(',').map(|x| {let w: Vec<usize> = x.split('.').map(|y| y.parse().unwrap()).collect(); (w[0], w[1], w[2])}).collect();
+		check_list(cx, &p, &merges, serial);
+		serial += 1;
+	}
+	let n = if cx.thorough() {20_000} else {2_000};
+	let mut made = 0;
+	while made < n
+	{
+		let mut rng = cx.rng.fork();
+		let mut p = if rng.chance(1, 2) {gen_deferred(&mut rng)} else {gen_random(&mut rng)};
+		// make runs: behind a scope directive put one or two more of its kind, over names of the project or a name nobody has
+		for _ in 0..1 + rng.below(2)
+		{
+			let f = rng.below(p.files.len() as u64) as usize;
+			let spots: Vec<usize> = p.files[f].iter().enumerate().filter(|(_, s)| matches!(s, St::Global(..) | St::Import(..) | St::Export(..))).map(|(i, _)| i).collect();
+			if spots.is_empty() {continue;}
+			let at = *rng.pick(&spots);
+			let n2 = if rng.chance(1, 4) {"nosuch".to_owned()} else {rng.pick(&NAMES).to_string()};
+			let extra = match &p.files[f][at] {St::Global(..) => St::Global(n2), St::Import(..) => St::Import(n2), _ => St::Export(n2)};
+			let pos = if rng.chance(1, 2) {at + 1} else {at};
+			p.files[f].insert(pos, extra);
+		}
+		if !p.is_tree() {continue;}
+		let cands = list_candidates(&p);
+		if cands.is_empty() {continue;}
+		let merges: Vec<(usize, usize, usize)> = cands.into_iter().filter(|_| rng.chance(3, 4)).collect();
+		if merges.is_empty() {continue;}
+		made += 1;
+		check_list(cx, &p, &merges, serial);
+		serial += 1;
+	}
+	cx.report.hit_n("list-form projects", n as u64 + 7);
+}
+
 pub fn run(_id: &str, cx: &mut Cx)
 {
 	cx.report.rule = "projects = include trees (depth <= 4, fan-out <= 3, <= 9 files) of .const/label/.global/.import/.export/.include statements and uses, a use being .du32 <name> or an instruction whose operand goes through one of the evaluator arms (SVC, UDF.N, UDF.W, RSBS / MOVS, CMP / B, BKPT / LDRB / LDR literal, LDR reg+offset) with every name confined to a value class encodable in its spellings, written to disk and assembled by the real Context; \
@@ -1744,6 +1911,17 @@ non-trivial = at least one used value or one diagnostic observed; distinct = dis
 	let mut serial = 0u64;
 	if let Some(input) = cx.replay.clone()
 	{
+		if let Some(rest) = input.strip_prefix("list ")
+		{
+			let w: Vec<&str> = rest.split(' ').collect();
+			let merges: Option<Vec<(usize, usize, usize)>> = w.get(1).map(|m| m.split(',').filter_map(|x| {let v: Vec<usize> = x.split('.').filter_map(|y| y.parse().ok()).collect(); if v.len() == 3 {Some((v[0], v[1], v[2]))} else {None}}).collect());
+			match (w.first().and_then(|x| Project::decode(x)), merges)
+			{
+				(Some(p), Some(m)) if p.is_tree() => check_list(cx, &p, &m, 0),
+				_ => cx.report.oracle_fail(input, "unrecognised replay input"),
+			}
+			return;
+		}
 		if input.starts_with("proj ")
 		{
 			match crate::asm::Project::from_input(&input)
@@ -1785,6 +1963,7 @@ non-trivial = at least one used value or one diagnostic observed; distinct = dis
 	table_api(cx);
 	histories(cx);
 	multi_name(cx);
+	list_forms(cx);
 	let sc = scenarios();
 	cx.report.hit_n("scenario projects", sc.len() as u64);
 	for p in &sc {assert!(p.is_tree(), "scenario is not a tree: {}", p.encode());}
